@@ -25,6 +25,9 @@ TraceInit == l = 1 /\ cfgLine = 1 /\ errs = <<>>
 
 AuthClasses == {"unauthorized", "txbasic", "noaccount", "emptypk", "depth"}
 
+\* ids of the OPEN known findings (known_findings.json), written by the check
+Known == LET k == JsonDeserialize(IOEnv.KNOWN_FILE) IN {k[i] : i \in 1..Len(k)}
+
 \* tags of the properties a DeliverTx event contradicts
 DeliverTags(pre, c, e) ==
     LET tx   == e.tx
@@ -41,6 +44,10 @@ DeliverTags(pre, c, e) ==
                       ELSE IF BalOf(post, FEE) # BalOf(pre, FEE) + tx.fee THEN {"C15"}
                       ELSE {"C18"})
                      \cup (IF (e.res.code = 0) # AuthDeliverOK(pre, c, tx, h) THEN {"C18"} ELSE {})
+                     \* C16: the same signed content, re-encoded into different bytes, took effect AGAIN
+                     \* (replay protection is keyed on the hash of the raw bytes: listed finding F-C16)
+                     \cup (IF tx.dup = "reencoded" /\ tx.priorEffect /\ post # pre
+                            THEN {IF "F-C16" \in Known THEN "F-C16" ELSE "C16"} ELSE {})
                 ELSE \* other message kinds: only the fee floor is judged here
                      IF BalOf(post, FEE) < BalOf(pre, FEE) + tx.fee THEN {"C15"} ELSE {}
 
@@ -60,8 +67,9 @@ TraceNext ==
            tags == (IF e.ev = "DeliverTx" THEN DeliverTags(Trace[l - 1].st, Trace[cfgLine].cfg, e) ELSE {})
                    \cup StateTags(e)
            new  == [i \in 1..Cardinality(tags) |-> <<l, SetToSeq(tags)[i]>>]
-       IN /\ cfgLine' = cl
-          /\ errs' = IF Len(errs) >= MaxErrs THEN errs ELSE errs \o new
+       IN /\ (\A t \in tags : t \in Known => PrintT(<<"KNOWN-FINDING-SEEN", t, l>>))
+          /\ cfgLine' = cl
+          /\ errs' = IF Len(errs) >= MaxErrs THEN errs ELSE errs \o SelectSeq(new, LAMBDA x : x[2] \notin Known)
 
 TraceSpec == TraceInit /\ [][TraceNext]_tvars
 
